@@ -101,6 +101,7 @@ class Interp:
         self.call_stack = []
         self.trace_calls = False
         self.fresh_counter = 0
+        self.race = None  # two-thread race controller (mirsym/race.py) while a race step runs
 
     # ------------------------------------------------------------------ path / solver
     def begin_path(self, prefix=()):
@@ -110,6 +111,7 @@ class Interp:
         self.depth = 0
         self.call_stack = []
         self.fresh_counter = 0
+        self.race = None
         self.stats.paths += 1
 
     def fresh(self, name, sort="int"):
@@ -989,6 +991,8 @@ class Interp:
                         v = self.eval_operand(locs, s[1], frame)
                         nxt = self.do_switch(v, s[2], s[3], frame)
                     elif k == "drop":
+                        if self.race is not None and self.race.active:
+                            self.race.dropped(self.read_place(locs, s[1], frame))
                         nxt = s[2]
                     elif k == "return":
                         post = self.monitors_post.get(item.name)
